@@ -243,3 +243,66 @@ func HarnessC19Legacy() {
 	}
 	verifReach("c19.legacy")
 }
+
+// ---- Config level: a configuration reload that leaves the namespaces setting unchanged ----------
+
+var (
+	verifLegacyWatchers []*NamespaceWatcher
+	verifNsTarget       string
+)
+
+// verifNewNamespaceWatcher replaces NewNamespaceWatcher (which starts file
+// watching): a fresh, empty watcher struct for the target, remembered so that
+// the harness can deliver events to it.
+func verifNewNamespaceWatcher(ctx context.Context, l *logrusx.Logger, target string) (*NamespaceWatcher, error) {
+	nw := &NamespaceWatcher{logger: &logrusx.Logger{}, target: target, namespaces: make(map[string]*NamespaceFile)}
+	verifLegacyWatchers = append(verifLegacyWatchers, nw)
+	return nw, nil
+}
+
+// verifLegacyNamespaceConfig replaces (*Config).namespaceConfig: the legacy
+// "namespaces: <uri>" setting with the current target.
+func verifLegacyNamespaceConfig(k *Config) (namespaceConfig, error) {
+	return legacyURINamespaceConfig(verifNsTarget), nil
+}
+
+// HarnessC19ConfigReload: a namespace file was loaded and then became invalid
+// (the last valid version is served); the main configuration is hot-reloaded.
+// With the namespaces setting unchanged the manager, and with it the last valid
+// version, must survive; with a changed setting a new manager is built.
+func HarnessC19ConfigReload() {
+	verifLegacyWatchers = nil
+	verifNsTarget = "file://dir"
+	k := &Config{ctx: context.Background(), l: &logrusx.Logger{}}
+	ctx := context.Background()
+	if _, err := k.NamespaceManager(); err != nil || len(verifLegacyWatchers) != 1 {
+		verifFail("C19 config: the namespace manager for a legacy URI is not a namespace watcher")
+		return
+	}
+	nw := verifLegacyWatchers[0]
+	nw.handleChange(verifChange("a.json", "ok:A1"))
+	if verifChoice(2) == 1 {
+		nw.handleChange(verifChange("a.json", "{broken"))
+		verifTag("file-invalid-at-reload")
+	} else {
+		verifTag("file-valid-at-reload")
+	}
+	changed := verifChoice(2) == 1
+	if changed {
+		verifNsTarget = "file://elsewhere"
+	}
+	k.watcher(nil, nil)
+	nm, err := k.NamespaceManager()
+	if err != nil {
+		verifFail("C19 config: no namespace manager after a configuration reload")
+		return
+	}
+	nn, err := nm.Namespaces(ctx)
+	verifReach("c19.config")
+	if changed {
+		verifAssert(len(verifLegacyWatchers) == 2, "C19 config: a changed namespaces setting does not lead to a new namespace manager")
+		return
+	}
+	verifAssert(err == nil && len(nn) == 1 && nn[0].Name == "A1", "C19 config: a reload that leaves the namespaces setting unchanged drops the last valid namespaces")
+	verifAssert(len(verifLegacyWatchers) == 1, "C19 config: a reload that leaves the namespaces setting unchanged rebuilds the namespace manager")
+}
